@@ -159,7 +159,7 @@ def run_resolve(ctx):
     hx = ctx.go_build("c09")
     quick = ctx.quick()
     cmd = [hx, "resolve", "-seed", str(ctx.seed), "-n", "960" if quick else "5000",
-           "-vectors", "6" if quick else "64", "-coq", "20" if quick else "320"]
+           "-vectors", "6" if quick else "64", "-coq", "16" if quick else "320"]
     rows = ctx.jsonl(cmd, timeout=1500)
     world = [r for r in rows if r.get("kind") == "world"][0]
     summary = [r for r in rows if r.get("kind") == "rsummary"][0]
